@@ -129,6 +129,14 @@ def derive(fam, base):
         v["[0:2]"] = base[0:2]
     except Exception:
         pass
+    # `copy.copy` / `copy.deepcopy` (decoratecopy): both wrap the copy constructor, so both must inherit read-only
+    import copy as _copy
+    if hasattr(base, "__copy__"):
+        for nm, f in (("copy.copy()", _copy.copy), ("copy.deepcopy()", _copy.deepcopy)):
+            try:
+                v[nm] = f(base)
+            except Exception:
+                pass
     try:
         e = base[1]
         if not isinstance(e, (int, float, str, bool)):
